@@ -4,19 +4,13 @@ package bs_domain
 
 // Contracts checked by /verif (vcgo). Comment-only: no executable code.
 
-//@ spec CntNGS(fs []BSFunction, n int) int
-//@ axiom CntNGS_zero: forall fs []BSFunction :: {CntNGS(fs, 0)} CntNGS(fs, 0) == 0
-//@ axiom CntNGS_step: forall fs []BSFunction, n int :: {CntNGS(fs, n + 1)} n >= 0 ==>
-//@    CntNGS(fs, n + 1) == CntNGS(fs, n) + (IsGS(fs[n].CodeFunction) ? 0 : 1)
+//@ spec rec CntNGS(fs []BSFunction, n int) int := n <= 0 ? 0 : CntNGS(fs, n - 1) + (IsGS(fs[n - 1].CodeFunction) ? 0 : 1)
 
 //@ func WithoutGetterSetterClass
 //@ ensures result == CntNGS(fullMethods, len(fullMethods))
 //@ loop 1 invariant normalMethodSize == CntNGS(fullMethods, #i)
 
-//@ spec CntKept(ms []BadSmellModel, ig map[string]bool, n int) int
-//@ axiom CntKept_zero: forall ms []BadSmellModel, ig map[string]bool :: {CntKept(ms, ig, 0)} CntKept(ms, ig, 0) == 0
-//@ axiom CntKept_step: forall ms []BadSmellModel, ig map[string]bool, n int :: {CntKept(ms, ig, n + 1)} n >= 0 ==>
-//@    CntKept(ms, ig, n + 1) == CntKept(ms, ig, n) + (ig[ms[n].Bs] ? 0 : 1)
+//@ spec rec CntKept(ms []BadSmellModel, ig map[string]bool, n int) int := n <= 0 ? 0 : CntKept(ms, ig, n - 1) + (ig[ms[n - 1].Bs] ? 0 : 1)
 //@ axiom CntKept_nonneg: forall ms []BadSmellModel, ig map[string]bool, n int :: {CntKept(ms, ig, n)} n >= 0 ==> CntKept(ms, ig, n) >= 0 && CntKept(ms, ig, n) <= n
 
 //@ func FilterBadSmellList
@@ -28,10 +22,7 @@ package bs_domain
 //@ loop 1 invariant forall k int :: {results[k]} 0 <= k && k < len(results) ==> !ignoreRules[results[k].Bs]
 //@ loop 1 invariant forall i int :: {models[i]} 0 <= i && i < #i && !ignoreRules[models[i].Bs] ==> CntKept(models, ignoreRules, i) < len(results)
 
-//@ spec HasSuper(b BSDataStruct, n int) bool
-//@ axiom HasSuper_zero: forall b BSDataStruct :: {HasSuper(b, 0)} !HasSuper(b, 0)
-//@ axiom HasSuper_step: forall b BSDataStruct, n int :: {HasSuper(b, n + 1)} n >= 0 ==>
-//@    (HasSuper(b, n + 1) <==> (HasSuper(b, n) || b.FunctionCalls[n].NodeName == b.Extend))
+//@ spec rec HasSuper(b BSDataStruct, n int) bool := n <= 0 ? false : (HasSuper(b, n - 1) || b.FunctionCalls[n - 1].NodeName == b.Extend)
 
 //@ func BSDataStruct.HasCallSuper
 //@ requires b != nil
